@@ -36,7 +36,7 @@ Proof. exact conns_zero_at_quiescence. Qed.
 Print Assumptions C14_conns_zero_at_quiescence.
 
 Example C14_conns_zero_at_quiescence_nonvacuous :
-  match run cfg_refute (sel_first cfg_refute) (init 0)
+  match run cfg_cap1 (sel_first cfg_cap1) (init 0)
             [LSpawn; LSelect 0; LBegin 0; LFinish 0 OPanic] with
   | Some s => forallb is_done (threads s) = true /\ conns s 0%nat = 0
   | None => False
@@ -78,9 +78,9 @@ Proof. exact down_while_maxfails_unexpired. Qed.
 Print Assumptions C14_down_while_maxfails_unexpired.
 
 Example C14_down_iff_maxfails_nonvacuous :
-  match run cfg_refute (sel_first cfg_refute) (init 0)
+  match run cfg_cap1 (sel_first cfg_cap1) (init 0)
             [LSpawn; LSelect 0; LBegin 0; LFinish 0 OError; LRecord 0 true; LTick 9] with
-  | Some s => promptb s = true /\ unexpired cfg_refute s 0%nat = 1 /\ down cfg_refute s 0%nat = true
+  | Some s => promptb s = true /\ unexpired cfg_cap1 s 0%nat = 1 /\ down cfg_cap1 s 0%nat = true
   | None => False
   end.
 Proof. vm_compute. repeat split; reflexivity. Qed.
@@ -118,56 +118,40 @@ Theorem C14_fails_return_to_zero :
 Proof. exact fails_drain. Qed.
 Print Assumptions C14_fails_return_to_zero.
 
-(* The cap.  "Conns never exceeds max_conns" is FALSE of the code as written: Select checks
-   Full() and the increment happens later, so two requests that are both in the window are both
-   forwarded.  Witness: one backend, max_conns 1, schedule
-   spawn, spawn, select 0, select 1, begin 0, begin 1  =>  Conns = 2.  (F-C14-1) *)
-Theorem C14_conns_le_max_refuted :
-  exists c sel s h, sel_sound c sel /\ reachable c sel s /\ 0 < c_max_conns c /\ c_max_conns c < conns s h.
-Proof. exact conns_le_max_refuted. Qed.
-Print Assumptions C14_conns_le_max_refuted.
+(* The cap.  Under EVERY schedule, for EVERY selection function (sound or not) and any number of
+   requests, Conns of a backend never exceeds max_conns — and therefore neither does the number
+   of requests being forwarded to it: acquireConn increments Conns only in the atomic step that
+   also sees the host below the cap.  (F-C14-1, fixed: the increment used to be unconditional, and
+   the schedule spawn, spawn, select 0, select 1, begin 0, begin 1 gave Conns = 2 with max_conns 1.) *)
+Theorem C14_conns_le_max :
+  forall c sel s h, 0 < c_max_conns c -> reachable c sel s -> conns s h <= c_max_conns c.
+Proof. exact conns_le_max. Qed.
+Print Assumptions C14_conns_le_max.
 
-(* Strongest true statement: for every selector that only hands out available hosts, in every
-   schedule in which no Select runs while another request sits in the window (sequential
-   traffic is the special case; a lock around select+increment enforces it), requests
-   forwarded plus requests about to be forwarded never exceed max_conns. *)
-Theorem C14_conns_le_max_serialized_partial :
-  forall c sel s h, sel_sound c sel -> 0 < c_max_conns c -> reachable_ser c sel s ->
-  conns s h + cnt (is_sel h) (threads s) <= c_max_conns c.
-Proof. exact conns_le_max_serialized. Qed.
-Print Assumptions C14_conns_le_max_serialized_partial.
+Theorem C14_forwarding_le_max :
+  forall c sel s h, 0 < c_max_conns c -> reachable c sel s -> cnt (is_fwd h) (threads s) <= c_max_conns c.
+Proof. exact forwarding_le_max. Qed.
+Print Assumptions C14_forwarding_le_max.
 
-Example C14_conns_le_max_serialized_partial_nonvacuous :
-  match run_ser cfg_refute (sel_first cfg_refute) (init 0)
-                [LSpawn; LSpawn; LSelect 0; LBegin 0; LSelect 1] with
-  | Some s => conns s 0%nat = 1 /\ nth_error (threads s) 1 = Some (Selected None)
+(* the schedule that used to overshoot: the second request finds the host full and is not counted *)
+Example C14_conns_le_max_nonvacuous :
+  match run cfg_cap1 (sel_first cfg_cap1) (init 0) sched_window with
+  | Some s => conns s 0%nat = 1 /\ nth_error (threads s) 0 = Some (Forwarding 0) /\
+              nth_error (threads s) 1 = Some (Selected None)
   | None => False
   end.
-Proof. vm_compute. split; reflexivity. Qed.
+Proof. vm_compute. repeat split; reflexivity. Qed.
 
-(* Design-level statement for the repair (NOT a theorem about the code as written): if the
-   increment itself re-checks the cap ([step_res]: a request that finds the host full at the
-   increment is treated as "no host"), then under EVERY schedule and EVERY selection function,
-   sound or not, Conns is exact and never exceeds max_conns. *)
-Theorem C14_conns_le_max_repaired_design :
-  forall c sel s h, 0 < c_max_conns c -> reachable_res c sel s ->
-  conns s h = cnt (is_fwd h) (threads s) /\ conns s h <= c_max_conns c.
-Proof. exact conns_le_max_with_recheck. Qed.
-Print Assumptions C14_conns_le_max_repaired_design.
-
-Example C14_conns_le_max_repaired_design_nonvacuous :
-  match run_res cfg_refute (sel_first cfg_refute) (init 0)
-                [LSpawn; LSpawn; LSelect 0; LSelect 1; LBegin 0; LBegin 1] with
-  | Some s => conns s 0%nat = 1 /\ nth_error (threads s) 1 = Some (Selected None)
-  | None => False
-  end.
-Proof. vm_compute. split; reflexivity. Qed.
-
-(* serialised schedules are schedules, so everything above applies to them as well *)
-Theorem C14_serialized_is_reachable :
-  forall c sel s, reachable_ser c sel s -> reachable c sel s.
-Proof. exact reachable_ser_reachable. Qed.
-Print Assumptions C14_serialized_is_reachable.
+(* Leaving the window: a request is forwarded to the host it holds exactly when that host is not
+   full at that instant (and is then counted); otherwise nothing is counted and the request takes
+   the no-host path (retry within try_duration, or 502). *)
+Theorem C14_begin_forwards_unless_full :
+  forall c sel s t h s',
+  nth_error (threads s) t = Some (Selected (Some h)) -> step c sel s (LBegin t) = Some s' ->
+  (full c s h = false -> nth_error (threads s') t = Some (Forwarding h) /\ conns s' h = conns s h + 1) /\
+  (full c s h = true -> nth_error (threads s') t = Some (Selected None) /\ conns s' = conns s).
+Proof. exact begin_forwards_unless_full. Qed.
+Print Assumptions C14_begin_forwards_unless_full.
 
 (* in every schedule a sound selector hands out a host only when it is neither down nor full
    at that instant *)
@@ -196,14 +180,20 @@ Theorem C14_harness_steps_reachable :
 Proof. exact harness_steps_reachable. Qed.
 Print Assumptions C14_harness_steps_reachable.
 
-(* max_fails is stored as int32(n): the threshold is the configured one for every value that
-   fits, and NOT for larger accepted values (F-C14-2: max_fails 4294967296 => always down). *)
-Theorem C14_max_fails_stored_partial :
-  forall n, -2147483648 <= n < 2147483648 -> wrap_int32 n = n.
-Proof. exact wrap_int32_id. Qed.
-Print Assumptions C14_max_fails_stored_partial.
+(* max_fails: the literal is parsed with a 32-bit size, so whatever setup accepts is stored
+   unchanged as the int32 threshold — the backend is down exactly from max_fails outstanding
+   failures on, for every accepted value — and exactly the values 1 .. 2^31-1 are accepted
+   (F-C14-2, fixed: larger values used to be accepted and truncated). *)
+Theorem C14_max_fails_stored :
+  forall n m, parse_max_fails n = Some m -> m = n /\ 1 <= m.
+Proof. exact max_fails_stored. Qed.
+Print Assumptions C14_max_fails_stored.
 
-Theorem C14_max_fails_stored_refuted :
-  exists n k, 1 <= n /\ 0 <= k < n /\ (wrap_int32 n <=? k) = true.
-Proof. exact maxfails_wrap_refuted. Qed.
-Print Assumptions C14_max_fails_stored_refuted.
+Theorem C14_max_fails_accepted_iff :
+  forall n, (exists m, parse_max_fails n = Some m) <-> 1 <= n < 2147483648.
+Proof. exact max_fails_accepted_iff. Qed.
+Print Assumptions C14_max_fails_accepted_iff.
+
+Example C14_max_fails_stored_nonvacuous :
+  parse_max_fails 2147483647 = Some 2147483647 /\ parse_max_fails 4294967296 = None.
+Proof. vm_compute. split; reflexivity. Qed.
